@@ -684,8 +684,9 @@ def build_ugrid(r: dict) -> Built:
     polys = [[(F(nodes[n][0]), F(nodes[n][1])) for n in f] for f in faces]
     centres = [None] * nface
     if face_coords:
-        fx = [sum(p[0] for p in poly) / len(poly) + 1 for poly in polys]   # deliberately NOT the centroid
-        fy = [sum(p[1] for p in poly) / len(poly) - 1 for poly in polys]
+        # deliberately NOT the centroid, and integral so the float values are exact
+        fx = [sum(p[0] for p in poly) + 1 for poly in polys]
+        fy = [sum(p[1] for p in poly) - 1 for poly in polys]
         fxa = xr.DataArray(np.array([float(v) for v in fx]), dims=[fdim])
         fya = xr.DataArray(np.array([float(v) for v in fy]), dims=[fdim])
         if face_coords == 'coords':
